@@ -2,6 +2,7 @@
 (The history runner is shared with C07.)"""
 from __future__ import annotations
 
+import re
 import sys
 
 import core
@@ -54,6 +55,9 @@ def render(rng, op):
         return kw("USE SCHEMA ") + r_q(rng, [x for x in (op[1], op[2]) if x])
     if k == "current":
         return "SELECT CURRENT_DATABASE(), CURRENT_SCHEMA()"
+    if k == "reconnect":
+        cs = (lambda n: rng.choice([n.lower(), n, "".join(ch.lower() if rng.random() < 0.5 else ch for ch in n)]))
+        return f"-- new session: connect(database='{cs(op[1])}', schema='{cs(op[2])}')"
     raise ValueError(op)
 
 
@@ -75,6 +79,8 @@ def enc_op(c, op):
         return [c, 6, [], S(op[1])]
     if k == "useschema":
         return [c, 7, core.opt(op[1]), S(op[2])]
+    if k == "reconnect":
+        return [c, 9, S(op[1]), S(op[2])]
     return [c, 8, [], []]
 
 
@@ -166,8 +172,14 @@ def run_history(rng, hist, texts=None, gen=0):
             sqls.append(sql)
             before = inst.catalog()
             try:
-                cur = inst.conns[c].cursor().execute(sql)
-                rows = cur.fetchall()
+                if op[0] == "reconnect":
+                    # the slot's session is replaced by a new one on the same instance (names as the text spells them)
+                    d_, s_ = re.search(r"database='([^']*)', schema='([^']*)'", sql).groups()
+                    inst.conns[c] = inst.fs.connect(database=d_, schema=s_)
+                    rows = []
+                else:
+                    cur = inst.conns[c].cursor().execute(sql)
+                    rows = cur.fetchall()
                 if op[0] == "select":
                     v = op[2] if len(op) > 2 else 0
                     if v % 7 in (0, 1, 5, 6):
@@ -238,9 +250,12 @@ def gen_op(rng, cat=None):
         return ("select", q(), rng.randrange(7))
     if x < 0.78:
         return ("usedb", pick_db())
-    if x < 0.92:
+    if x < 0.9:
         d = rng.choice([None, None, pick_db()])
         return ("useschema", d, pick_sch(d))
+    if x < 0.95:
+        d = pick_db()
+        return ("reconnect", d, pick_sch(d))
     return ("current",)
 
 
@@ -347,6 +362,10 @@ def main():
                      (0, ("useschema", None, "S1")), (0, ("current",)), (0, ("createtable", ["T9"])), (0, ("select", ["T9"], 0)), (1, ("select", ["DB2", "S1", "T9"], 0)),
                      (0, ("useschema", "DB1", "S2")), (0, ("useschema", None, "S1")), (0, ("current",)), (0, ("select", ["T9"], 0)), (0, ("createtable", ["T9"])), (0, ("select", ["T9"], 0)),
                      (1, ("select", ["DB1", "S1", "T9"], 0))])
+    # corpus: new sessions opened in the middle of the history - after the instance has seen connects, creations and drops
+    hists.insert(2, [(2, ("reconnect", "DB3", "S9")), (2, ("createtable", ["T"])), (3, ("reconnect", "DB1", "S2")), (0, ("dropschema", "DB3", "S9")), (2, ("reconnect", "DB1", "S1")),
+                     (3, ("reconnect", "DB3", "S9")), (3, ("current",)), (3, ("createtable", ["T"])), (3, ("select", ["T"], 0)), (2, ("select", ["DB3", "S9", "T"], 0)),
+                     (1, ("dropschema", "DB3", "S9")), (1, ("reconnect", "DB3", "S9")), (1, ("current",)), (1, ("createtable", ["U"])), (3, ("select", ["DB3", "S9", "U"], 0))])
     cases, impl = [], []
     reported = False
     for hi, h in enumerate(hists):
@@ -390,7 +409,7 @@ def main():
     check_known(ck)
     ck.cov["distinct_nontrivial"] = len({core.show(c[2]) for c in cases})
     ck.cov["samples"].append({"history": [(c, s) for (c, _), s in zip(hists[1], impl[1][1])][:10], "results": [o[0] for o in impl[1][0]][:10]})
-    return ck.finish(rule="random multi-connection histories (4 connections: DB1.S1, DB1.S2, one without database, one that named a database that did not exist; 3 databases x 3 schemas x 3 tables; "
+    return ck.finish(rule="random multi-connection histories with new sessions opened at any point (4 connection slots: DB1.S1, DB1.S2, one without database, one that named a database that did not exist; 3 databases x 3 schemas x 3 tables; "
                           "names rendered with random case/quoting; seven statement forms per table reference) kept inside the theorem's domain by a generator-side mirror of `dom`; "
                           "after EVERY statement the result, the reported context, the engine's current schema and the full catalog are compared; distinct by encoded history")
 
